@@ -45,6 +45,93 @@ def is_not_factorized(cond, pol):
     return False
 
 
+class FixedPoint(object):
+    """dag.Point with prescribed atom values (everything else as in a pseudo-random point)"""
+
+    def __new__(cls, values, seed="spd"):
+        from gmg import dag
+        p = dag.Point(seed)
+        p.fixed = values
+        orig = p.atom_value
+        p.atom_value = lambda name, _o=orig, _v=values: _v[name] if name in _v else _o(name)
+        return p
+
+
+def spd_samples(n, cyclic):
+    """named SPD matrices of the solver's pattern (exact rationals), verified by leading principal minors"""
+    from fractions import Fraction as F
+    out = []
+
+    def mk(name, a, b, c):
+        A = [[F(0)] * n for _ in range(n)]
+        for i in range(n):
+            A[i][i] += a[i]
+        for i in range(n - 1):
+            A[i][i + 1] += b[i]
+            A[i + 1][i] += b[i]
+        if cyclic:
+            A[0][n - 1] += c
+            A[n - 1][0] += c
+        # leading principal minors by fraction-exact elimination
+        M = [row[:] for row in A]
+        ok = True
+        for k in range(n):
+            if M[k][k] <= 0:
+                ok = False
+                break
+            for i in range(k + 1, n):
+                f = M[i][k] / M[k][k]
+                for j in range(k, n):
+                    M[i][j] -= f * M[k][j]
+        if ok:
+            out.append((name, a, b, c))
+    bs = [F((-1) ** i * (i + 1), 7) for i in range(n - 1)]
+    for sgn, nm in ((1, "+"), (-1, "-")):
+        c = F(sgn, 3) if cyclic else F(0)
+        a = [abs(bs[i - 1]) if i > 0 else F(0) for i in range(n)]
+        a = [a[i] + (abs(bs[i]) if i < n - 1 else 0) + (abs(c) if i in (0, n - 1) else 0) + 1 for i in range(n)]
+        mk("diagonally dominant, corner %s1/3" % nm, a, bs, c)
+    if cyclic:
+        small = [F(1, 10)] * (n - 1)
+        for sgn, nm in ((1, "+"), (-1, "-")):
+            mk("corner %s10 exceeding a_0 = 1 (a_n-1 = 400)" % nm, [F(1)] + [F(50)] * (n - 2) + [F(400)] if n > 1 else [F(1)], small if n > 2 else [F(0)] * (n - 1), F(10 * sgn))
+            mk("corner %s10 exceeding a_n-1 = 1 (a_0 = 400)" % nm, [F(400)] + [F(50)] * (n - 2) + [F(1)], small if n > 2 else [F(0)] * (n - 1), F(10 * sgn))
+            mk("corner %s1 equal scale, zero sub-diagonals" % nm, [F(2)] * n, [F(0)] * (n - 1), F(sgn))
+            mk("corner %s3/2 with a_0 = 1, a_n-1 = 3, zero sub-diagonals" % nm, [F(1)] + [F(5)] * (n - 2) + [F(3)], [F(0)] * (n - 1), F(3 * sgn, 2))
+    scaled = [F(10) ** (2 * i - n) for i in range(n)]
+    mk("rows scaled 1e-n..1e+n", scaled, [F(1, 4) * min(scaled[i], scaled[i + 1]) for i in range(n - 1)], F(1, 8) * min(scaled[0], scaled[-1]) if cyclic else F(0))
+    return out
+
+
+def spd_sign_changes(n, cyclic, A, a, b, c, denoms):
+    """denominators (in order of occurrence) that take both signs over the SPD samples"""
+    from gmg import dag
+    samples = spd_samples(n, cyclic)
+    if len(samples) < 2:
+        raise ir.AnalysisBroken("fewer than two SPD sample matrices for n=%d cyclic=%s" % (n, cyclic))
+    signs = {}
+    flips = []
+    for name, av, bv, cv in samples:
+        vals = {"a_%d" % i: av[i] for i in range(n)}
+        vals.update({"b_%d" % i: bv[i] for i in range(n - 1)})
+        vals["c"] = cv
+        pt = FixedPoint(vals)
+        for k, d in enumerate(denoms):
+            try:
+                v = pt.value(d)
+            except ZeroDivisionError:
+                flips.append((k, (name, 0), (name, 0), d))
+                continue
+            if v == 0:
+                flips.append((k, (name, 1), (name, -1), d))
+                continue
+            if k in signs and (signs[k][1] > 0) != (v > 0):
+                flips.append((k, signs[k], (name, v), d))
+            signs.setdefault(k, (name, v))
+    flips.sort(key=lambda f: f[0])
+    return flips
+
+
 def algebraic_solves(ck, prog, tier):
     """interpret solveInPlace from source on a symbolic SPD-shaped matrix (entries are independent atoms) in the exact
     rational-function domain: the returned x must satisfy A x = b identically, and a second solve with the same object must
@@ -53,6 +140,7 @@ def algebraic_solves(ck, prog, tier):
     from gmg.dag import Lin
     from gmg.interp import Cell, Interp
     from gmg.symdom import SArr
+    ck.rule("R-C14-5", "no division denominator of the solve changes sign over SPD sample matrices (diagonally dominant, corner of either sign exceeding a_0 or a_n-1, zero sub-diagonals, widely scaled rows): no breakdown on SPD input", floor=8)
     ck.rule("R-C14-4", "solveInPlace interpreted on symbolic matrices: A x == b identically (n=2..N, cyclic and not); repeated solve identical; DiagonalSolver likewise", floor=8)
     ns = range(2, 7) if tier == "quick" else range(2, 10)
     solve = prog.fn(CLS + "::solveInPlace")
@@ -88,6 +176,12 @@ def algebraic_solves(ck, prog, tier):
                 A[(n - 1, 0)] = dag.add(A.get((n - 1, 0), dag.ZERO), c)
             results = []
             bad = None
+            denoms = []
+            orig_div = dag.div
+
+            def logging_div(a_, b_, _d=denoms, _o=orig_div):
+                _d.append(dag.lift(b_))
+                return _o(a_, b_)
             for rep in range(2):
                 x = SArr("x", n, gen=lambda j: dag.atom("rhs_%d" % j))
                 # work buffers arrive with arbitrary contents (callers reuse them across lines and solvers): a read of an
@@ -96,10 +190,14 @@ def algebraic_solves(ck, prog, tier):
                 t2 = SArr("t2", n, gen=lambda j, rep=rep: dag.atom("stale_work2_%d_%d" % (rep, j)))
                 from gmg.conc import PtrInto
                 try:
+                    if rep == 0:
+                        dag.div = logging_div
                     it.call_function(solve, o, [PtrInto(x, 0), PtrInto(t1, 0), PtrInto(t2, 0)])
                 except ir.AnalysisBroken as e:
                     bad = "interpretation failed: %s" % e
                     break
+                finally:
+                    dag.div = orig_div
                 sol = [dag.lift(x.sym.get(i, dag.atom("rhs_%d" % i))) for i in range(n)]
                 results.append(sol)
                 if dom.oob:
@@ -114,6 +212,17 @@ def algebraic_solves(ck, prog, tier):
                     break
             if not bad and any(not dag.equal(p_, q_) for p_, q_ in zip(results[0], results[1])):
                 bad = "the second solve with the same object returns a different solution"
+            if not bad:
+                # ---- R-C14-5: no denominator of the first solve (factorisation + substitution) changes sign over SPD inputs
+                ck.instance("R-C14-5", key)
+                flips = spd_sign_changes(n, cyclic, A, a, b, c, denoms)
+                if flips:
+                    k_, (nm1, v1), (nm2, v2), expr = flips[0]
+                    ck.violation("R-C14-5", "solve:%s:denominator" % ("cyclic" if cyclic else "tridiagonal"), ir.locstr(solve),
+                                 "%s: division #%d of the solve has the denominator %s, which is %s on the SPD matrix '%s' and %s on the SPD matrix '%s': it vanishes on some SPD matrix in between, where the solve breaks down" % (
+                                     key, k_ + 1, dag.show(expr, 80), "positive" if v1 > 0 else "negative", nm1, "positive" if v2 > 0 else "negative", nm2))
+                else:
+                    ck.ok("R-C14-5", key, sample={"n": n, "cyclic": cyclic, "denominators": len(denoms)} if n == 3 else None)
             if bad:
                 ck.violation("R-C14-4", "solve:%s" % ("cyclic" if cyclic else "tridiagonal"), ir.locstr(solve), "%s: %s" % (key, bad))
             else:
